@@ -181,6 +181,12 @@ func (cc *ClientConn) SendRaw(b []byte) error {
 	return wsutil.WriteClientText(cc.c, b)
 }
 
+// SendClose sends a websocket close frame (what a browser does when a page goes away) and leaves the connection open.
+func (cc *ClientConn) SendClose() error {
+	cc.c.SetWriteDeadline(time.Now().Add(3 * time.Second))
+	return ws.WriteFrame(cc.c, ws.MaskFrameInPlace(ws.NewCloseFrame(ws.NewCloseFrameBody(ws.StatusNormalClosure, ""))))
+}
+
 func (cc *ClientConn) locallyClosed() bool {
 	cc.mu.Lock()
 	defer cc.mu.Unlock()
